@@ -60,10 +60,26 @@ package stats
 //@             bits(r.P, tailP(alt, r.T, r.DoF))
 
 //@ func MannWhitneyUTest(x1, x2 []float64, alt LocationHypothesis) (r *MannWhitneyUTestResult, err error)
-//@   props C17
+//@   props C17 C11
 //@   opt functional
-//@   trusted
+//@   requires noNaN(x1) && noNaN(x2) && len(x1) <= 1000000 && len(x2) <= 1000000
 //@   ensures err == nil ==> r != nil
+//@   ensures (len(x1) == 0 || len(x2) == 0) ==> r == nil && err == ErrSampleSize
+//@   ensures err != nil ==> r == nil && (err == ErrSampleSize || err == ErrSamplesEqual)
+//@   ensures err == nil ==> r.N1 == len(x1) && r.N2 == len(x2) && r.AltHypothesis == alt
+//@   ensures err == nil ==> exists tv []int witness T :: pSelected(r.P, r.U, len(x1), len(x2), tv, alt)
+//@   loop 1:
+//@     invariant 0 <= i <= len(merged) && len(labels) == len(merged) && len(merged) == n1 + n2 && n1 == len(x1) && n2 == len(x2) && n1 > 0 && n2 > 0
+//@     invariant noNaN(merged) && fresh(T) && unchanged()
+//@     invariant len(T) <= i && (hasTies <==> len(T) < i)
+//@     decreases len(merged) - i
+//@   loop 2:
+//@     invariant rank1 - 1 <= i <= len(merged) && rank1 >= 1 && rank1 <= len(merged) && len(labels) == len(merged) && len(merged) == n1 + n2 && n1 == len(x1) && n2 == len(x2) && n1 > 0 && n2 > 0
+//@     invariant 0 <= nx1 <= i - rank1 + 1
+//@     invariant i == rank1 - 1 ==> merged[i] == v1
+//@     invariant noNaN(merged) && fresh(T) && unchanged()
+//@     invariant len(T) <= rank1 - 1 && (hasTies <==> len(T) < rank1 - 1)
+//@     decreases len(merged) - i
 
 // ---------------------------------------------------------------------------
 // t-tests (C12): textbook statistic, degrees of freedom and tail selection
@@ -110,3 +126,66 @@ package stats
 //@             bits(r.DoF, x.Weight() - 1.0) &&
 //@             bits(r.T, (x.Mean() - mu0) * math.Sqrt(x.Weight()) / math.Sqrt(x.Variance())) &&
 //@             bits(r.P, tailP(alt, r.T, r.DoF))
+
+// ---------------------------------------------------------------------------
+// Mann-Whitney p-value selection (C11)
+
+// ucdf(n1, n2, T, u): the exact distribution function of U for sample sizes
+// n1, n2 and tie vector T at u (UDist.CDF; its values are the subject of the
+// bounded stand-in).  ncdf: the normal distribution function.
+//@ ghost func ucdf(n1 int, n2 int, t []int, u float64) float64
+//@ ghost func ncdf(mu float64, sigma float64, x float64) float64
+
+//@ func (d UDist) CDF(U float64) (p float64)
+//@   trusted
+//@   ensures bits(p, ucdf(d.N1, d.N2, d.T, U))
+
+//@ func (n NormalDist) CDF(x float64) (p float64)
+//@   trusted
+//@   ensures bits(p, ncdf(n.Mu, n.Sigma, x))
+
+//@ func mathSign(x float64) (s float64)
+//@   opt functional
+//@   ensures x == 0.0 ==> s == 0.0
+//@   ensures x < 0.0 ==> s == 0.0 - 1.0
+//@   ensures x > 0.0 ==> s == 1.0
+//@   ensures isNaN(x) ==> isNaN(s)
+
+//@ func tieCorrection(ties []int) (t float64)
+//@   opt functional
+//@   nooverflow
+//@   loop 1:
+//@     invariant 0 <= idx() <= len(ties)
+//@     decreases len(ties) - idx()
+
+// The tie vector has one entry per group of equal pooled values, so there are
+// ties exactly when it has fewer entries than there are values.
+
+// The exact distribution is used up to the configured sample sizes.
+//@ pure func useExact(ties bool, n1 int, n2 int) bool = (!ties && n1 <= MannWhitneyExactLimit && n2 <= MannWhitneyExactLimit) ||
+//@     (ties && n1 <= MannWhitneyTiesExactLimit && n2 <= MannWhitneyTiesExactLimit)
+
+//@ pure func sigmaU(n1 int, n2 int, tv []int) float64 =
+//@     math.Sqrt(float64(n1*n2) * ((float64(n1+n2) + 1.0) - tieCorrection(tv)/(float64(n1+n2)*(float64(n1+n2)-1.0))) / 12.0)
+
+// The continuity-corrected standard score for each alternative.
+//@ pure func zScore(u float64, n1 int, n2 int, tv []int, alt LocationHypothesis) float64 =
+//@     alt == 0 ? ((u - float64(n1*n2)/2.0) - mathSign(u - float64(n1*n2)/2.0)*0.5) / sigmaU(n1, n2, tv) :
+//@     (alt == -1 ? ((u - float64(n1*n2)/2.0) + 0.5) / sigmaU(n1, n2, tv) :
+//@     (alt == 1 ? ((u - float64(n1*n2)/2.0) - 0.5) / sigmaU(n1, n2, tv) : (u - float64(n1*n2)/2.0) / sigmaU(n1, n2, tv)))
+
+// pSelected: p is the tail of the right distribution for the alternative: the
+// lower tail at U for `less`, the upper tail P(U' >= U) = 1 - F(U - 1/2) for
+// `greater`, and for `differs` 1 when U is its own mirror image, otherwise
+// twice the smaller tail (stated for untied samples only: with ties the
+// two-sided value is the recorded known finding D6).
+//@ pure func pSelected(p float64, u float64, n1 int, n2 int, tv []int, alt LocationHypothesis) bool =
+//@     (useExact((len(tv) < n1 + n2), n1, n2) ==> len(tv) != 1 &&
+//@        (alt == -1 ==> bits(p, ucdf(n1, n2, tv, u))) &&
+//@        (alt == 1 ==> bits(p, 1.0 - ucdf(n1, n2, tv, u - 0.5))) &&
+//@        (alt == 0 && u == float64(n1*n2) - u ==> p == 1.0) &&
+//@        (alt == 0 && !(len(tv) < n1 + n2) && !(u == float64(n1*n2) - u) ==> bits(p, ucdf(n1, n2, tv, math.Min(u, float64(n1*n2) - u)) * 2.0))) &&
+//@     (!useExact((len(tv) < n1 + n2), n1, n2) ==> !(sigmaU(n1, n2, tv) == 0.0) &&
+//@        (alt == -1 ==> bits(p, ncdf(StdNormal.Mu, StdNormal.Sigma, zScore(u, n1, n2, tv, alt)))) &&
+//@        (alt == 1 ==> bits(p, 1.0 - ncdf(StdNormal.Mu, StdNormal.Sigma, zScore(u, n1, n2, tv, alt)))) &&
+//@        (alt == 0 ==> bits(p, 2.0 * math.Min(ncdf(StdNormal.Mu, StdNormal.Sigma, zScore(u, n1, n2, tv, alt)), 1.0 - ncdf(StdNormal.Mu, StdNormal.Sigma, zScore(u, n1, n2, tv, alt))))))
